@@ -778,10 +778,11 @@ fn main() {
         let n: u64 = a.extra("values").and_then(|s| s.parse().ok()).unwrap_or(200);
         let sub = a.check.clone();
         let w = match sub.as_str() {
-            "c07" => Which { c07: true, c08: false, c09: false },
-            "c08" => Which { c07: false, c08: true, c09: false },
-            "c09" => Which { c07: false, c08: false, c09: true },
-            _ => Which { c07: false, c08: false, c09: false },
+            "c07" => Which { c07: true, ..Default::default() },
+            "c08" => Which { c08: true, ..Default::default() },
+            "c09" => Which { c09: true, ..Default::default() },
+            "c13" => Which { c13: true, ..Default::default() },
+            _ => Which::default(),
         };
         if !a.replay.is_empty() {
             let name = a.replay[0].clone();
@@ -798,7 +799,7 @@ fn main() {
             return rep;
         }
         match sub.as_str() {
-            "c07" | "c09" => run_values(&a, &mut rep, &reg, &w, &sub, n, None),
+            "c07" | "c09" | "c13" => run_values(&a, &mut rep, &reg, &w, &sub, n, None),
             "c08" => {
                 run_values(&a, &mut rep, &reg, &w, &sub, n, None);
                 run_twins(&a, &mut rep, &sub, n.min(256), None);
